@@ -202,7 +202,10 @@ def flatten_stream(sc):
         q = {k: v for k, v in p.items() if k not in ('k',)}
         q['k'] = '' if p['k'] == 'pl' else p['k']
         pkts.append(q)
-    return {'units': units, 'pkts': pkts, 'pmtpids': sorted(sc.get('pmtpids', [])), 'complete': True}
+    out = {'units': units, 'pkts': pkts, 'pmtpids': sorted(sc.get('pmtpids', [])), 'complete': True}
+    if sc.get('quiescent') and not any('f' in p for p in pkts):
+        out['mpred'] = sc.get('pred', [])          # the model's prediction of all deliveries (kept out of the harness's sight)
+    return out
 
 
 def demux_scenarios(ctx, cfgs, prefix, sample=None):
@@ -214,6 +217,41 @@ def demux_scenarios(ctx, cfgs, prefix, sample=None):
             gen = [gen[int(i * step)] for i in range(sample)]
         scs += [flatten_stream(g) for g in gen]
     return tag_scenarios(scs, prefix, ctx.seed, 'demux')
+
+
+def demux_drift_fn(scenarios):
+    """model -> code conformance for Demux.tla: for streams that end in a quiescent model state, the real Demuxer's deliveries
+    (pid, kind, section identity / PES length, in delivery order incl. the EOF drain) must equal what the model computed"""
+    preds = {s['sid']: s['mpred'] for s in scenarios if 'mpred' in s}
+
+    def fn(ctx, traces):
+        drift = compared = 0
+        examples = []
+        for tp in traces:
+            sid, got = None, []
+
+            def flush():
+                nonlocal drift, compared
+                if sid in preds:
+                    compared += 1
+                    want = []
+                    for pid, k, u, sidx, ln in preds[sid]:
+                        want.append([pid, k, ln if k == 'pes' else 100 * u + (sidx - 1)])
+                    if want != got:
+                        drift += 1
+                        if len(examples) < 5:
+                            examples.append({'trace': sid, 'model': want, 'code': got})
+            with open(tp) as f:
+                for line in f:
+                    e = json.loads(line)
+                    if e['ev'] == 'reset':
+                        flush()
+                        sid, got = e['t'], []
+                    elif e['ev'] == 'deliver':
+                        got.append([e['pid'], e['kind'], e['len'] if e['kind'] == 'pes' else e['ident']])
+            flush()
+        return drift, compared, examples
+    return fn
 
 
 def run_c02(ctx):
@@ -231,7 +269,7 @@ def run_c02(ctx):
         s['sid'] = 'e' + s['sid']
     rnd += rnd2
     return pipeline(
-        ctx, 'Mon_C02', 'demux', scs + rnd,
+        ctx, 'Mon_C02', 'demux', scs + rnd, drift_fn=demux_drift_fn(scs),
         rule='scenario = well-formed transport stream (units with byte layouts + packetisation + interleaving); TLC-generated: one per transition of the '
              'Demux.tla (generator x demuxer) state graph, completed canonically; random: seeded reference multiplexer harness/streamgen.go '
              '(1..8 PIDs, bounded/unbounded PES, 1..3 sections, pointer fields, trailing stuffing or exact fit); distinct by hash of units+packets',
